@@ -720,6 +720,51 @@ fn many_ssrc_cases(run: &mut Run, rng: &mut Rng) {
     }
 }
 
+
+/// The `MAX_RX_CONTEXTS` cap: 1023 streams fill the receiver; the 1024th SSRC is still accepted, the
+/// 1025th is refused (nothing touched) while all are live, known SSRCs keep working, and once the others
+/// have idled out a new SSRC gets in again (either a known or the new stream arriving first).
+fn cap_cases(run: &mut Run, rng: &mut Rng) {
+    const CAP: u32 = 1024;
+    for (pi, prof) in PROFILES.iter().enumerate() {
+        for new_first in [false, true] {
+            let mut ops = new_pair(rng, pi, prof);
+            let (a, b, c) = (0x9000u32, 0x9001u32, 0x9002u32);
+            ops.push(Op::Fill(0, 1, 0x5000, CAP - 1));
+            let mut want: Vec<(usize, bool, &'static str)> = vec![];     // (op index, accepted?, what)
+            let mut slot = 0;
+            let mut rtp = |ops: &mut Vec<Op>, want: &mut Vec<(usize, bool, &'static str)>, slot: &mut usize, ssrc: u32, seq: u16, ok: bool, what: &'static str| {
+                ops.push(Op::ProtectRtp(0, PktSpec::simple(seq, ssrc, vec![seq as u8, 1])));
+                ops.push(Op::UnprotectRtp(1, Src::Slot(*slot))); *slot += 1;
+                want.push((ops.len() - 1, ok, what));
+            };
+            rtp(&mut ops, &mut want, &mut slot, a, 1, true, "ssrc-number-cap-refused");
+            rtp(&mut ops, &mut want, &mut slot, b, 1, false, "new-ssrc-accepted-beyond-cap");
+            rtp(&mut ops, &mut want, &mut slot, a, 2, true, "known-ssrc-refused-at-cap");
+            ops.push(Op::ProtectRtcp(0, Src::Lit(rtcp_packet(rng, c, 12)))); ops.push(Op::UnprotectRtcp(1, Src::Slot(slot))); slot += 1;
+            want.push((ops.len() - 1, false, "new-rtcp-ssrc-accepted-beyond-cap"));
+            ops.push(Op::Tick(61));
+            if new_first {
+                rtp(&mut ops, &mut want, &mut slot, b, 2, true, "new-ssrc-refused-although-all-idle");
+            } else {
+                rtp(&mut ops, &mut want, &mut slot, a, 3, true, "known-ssrc-refused-after-idle");
+                rtp(&mut ops, &mut want, &mut slot, b, 2, true, "new-ssrc-refused-after-eviction");
+            }
+            ops.push(Op::Snap(1));
+            let (res, _) = run_script(&ops, false);
+            let input = script_text(&ops);
+            run.case("sessw", &input, &results_text(&res), true);
+            run.count("case_kind:rx-cap");
+            if res[2].text() != format!("ok{}", CAP - 1) { run.fail(&format!("cap:fill-not-accepted:{prof}"), &format!("sessw {input}"), &res[2].text()); }
+            for (i, ok, what) in want {
+                if res[i].is_ok() != ok { run.fail(&format!("cap:{what}:{prof}"), &format!("sessw {input}"), &format!("op {i} {} → {}", ops[i].text(), res[i].text())); }
+            }
+            // after the idle time only the streams used since then are left
+            if let Res::Snap(rx, _) = res.last().unwrap() { if rx.len() > 2 { run.fail(&format!("cap:idle-contexts-not-evicted:{prof}"), &format!("sessw {input}"), &format!("{} contexts", rx.len())); } }
+        }
+    }
+}
+
 /// out-of-domain / malformed stream: arbitrary jumps, replays, joining after a wrap, garbage —
 /// compared with the model only
 fn wild_case(rng: &mut Rng, i: usize, prof: &str) -> Case {
@@ -831,6 +876,7 @@ pub fn run(args: &Args) {
     ext_cases(&mut run, &mut rng, t);
     bigstate_cases(&mut run, &mut rng, t);
     many_ssrc_cases(&mut run, &mut rng);
+    cap_cases(&mut run, &mut rng);
     badkey_cases(&mut run, &mut rng);
     let nh = if t { 6000 } else { 700 };
     for i in 0..nh { let prof = PROFILES[i % 4]; let c = history_case(&mut rng, i, prof); emit(&mut run, "sess", &c); }
